@@ -563,7 +563,7 @@ package state
 //@ spec func c08DlgNum(s: DelegationFroms, a: int) int = c08AddrNum(c08AsDlg(elems(s)[a]).Delegator)
 // "必须是排好序的": strictly increasing, hence duplicate-free; every entry exists with both amounts.
 //@ spec func c08Sorted(s: DelegationFroms) bool =
-//@     forall a: int, b: int :: { elems(s)[a], elems(s)[b] } off(s) <= a && a < b && b < off(s) + len(s) ==> c08DlgNum(s, a) < c08DlgNum(s, b)
+//@     forall a: int, b: int :: { c08DlgNum(s, a), c08DlgNum(s, b) } off(s) <= a && a < b && b < off(s) + len(s) ==> c08DlgNum(s, a) < c08DlgNum(s, b)
 //@ spec func c08DlgsOK(s: DelegationFroms) bool =
 //@     forall a: int :: { elems(s)[a] } off(s) <= a && a < off(s) + len(s) ==>
 //@         c08AsDlg(elems(s)[a]) != nil && allocated(c08AsDlg(elems(s)[a])) && c08AsDlg(elems(s)[a]).Stake != nil && c08AsDlg(elems(s)[a]).Token != nil
@@ -599,6 +599,7 @@ package state
 //   absent & non-empty -> Create: d inserted at p    present & empty     -> Delete: cell p removed
 //@ func (*Validator).UpdateDelegationFrom props C08
 //@ panics none
+//@ opt per-return          // four returns = the four cases, each proved in its own state (names get ~k)
 //@ overflow checked
 //@ requires v != nil && d != nil && d.Stake != nil && d.Token != nil && c08DlgsOK(v.Delegations)
 //@ let s0 = v.Delegations
@@ -646,6 +647,7 @@ package state
 // The summation over the list is not mechanised (no comprehension over heap-stored lists); see claims/C08.json.
 //@ func (*StateDB).UpdateDelegation props C08
 //@ panics none
+//@ opt per-return          // each return in its own (unmerged) state (names get ~k): existential clauses match the callee's literally
 //@ requires c08StateWF(st) && st.journal != nil && val != nil && c08RecOK(st, val) && c08Counted(c08Stat(st), val) && c10ValAmountsOK(val)
 //@ requires c08Sorted(val.Delegations) && c08DlgsOK(val.Delegations) && params.StakeUint != nil && big(params.StakeUint) > 0
 // the delegator's account side (UpdateDelegator): the account journal exists; the delegator's cached account object, if any, is well formed
@@ -674,10 +676,13 @@ package state
 //@ ensures [stored] acts ==> c08HasObj(st, c08AddrOf(val)) && c08Obj(st, c08AddrOf(val)) == result0
 //@ ensures [list-sorted] acts ==> c08Sorted(result0.Delegations) && c08DlgsOK(result0.Delegations)
 // Clause 4 — the account side is edited with the SAME decision as the validator side: afterwards the delegator's account (when it exists)
-// lists this validator iff the validator-side edit was not a Delete, and its total of delegated tokens moved by tokenChanged.
+// lists this validator iff the validator-side edit was not a Delete ([account-side-listed] / [account-side-not-listed]), and its total of delegated tokens moved by tokenChanged.
 // (That the validator side lists d iff the flag is Create / Update is UpdateDelegationFrom#[create-at] / [update] / [delete-*]; the flag as a
 //  function of the OLD membership is the NOT-DECIDED clause above.)
-//@ ensures [account-side] acts && c08Live(st, d) ==> (c08AMember(c08Acct(st, d).delegations, c08AddrOf(val)) <==> result3 != params.Delete) && c08AcctOK(st, c08Acct(st, d), d)
+// ([account-side]: listed iff the flag is not Delete — one polarity per clause)
+//@ ensures [account-side-listed] acts && c08Live(st, d) && result3 != params.Delete ==> c08AMember(c08Acct(st, d).delegations, c08AddrOf(val))
+//@ ensures [account-side-not-listed] acts && c08Live(st, d) && result3 == params.Delete ==> c08LNotListed(c08Acct(st, d).delegations, c08AddrOf(val))
+//@ ensures [account-ok] acts && c08Live(st, d) ==> c08AcctOK(st, c08Acct(st, d), d)
 //@ ensures [account-balance] acts && old(c08Live(st, d)) ==> c08Acct(st, d) == old(st.stateObjects[d]) &&
 //@     big(c08Acct(st, d).data.DelegationBalance) == old(big(st.stateObjects[d].data.DelegationBalance)) + old(big(tokenChanged))
 //@ ensures [account-noop] !acts ==> mapval(st.stateObjects) == old(mapval(st.stateObjects)) && len(st.journal.entries) == old(len(st.journal.entries))
@@ -789,6 +794,44 @@ package state
 // The list a journalled update started from: what the last journal entry (a delegationsChange) holds.
 //@ spec func c08JPrev(so: *stateObject) common.SortedAddresses = unbox(so.db.journal.entries[len(so.db.journal.entries) - 1], delegationsChange).prevdlgs
 
+// The list edit as relations between two cell sequences: n / on = array and offset of the new list, l / ol / ll = array, offset, length of the old
+// list, p = position in the old list, x = the address. Absolute cells (triggers without arithmetic).
+//@ spec func c08SInsBefore(n: seq[common.Address], on: int, l: seq[common.Address], ol: int, p: int) bool = forall a: int :: { n[a] } on <= a && a < on + p ==> n[a] == l[a - on + ol]
+//@ spec func c08SInsAfter(n: seq[common.Address], on: int, l: seq[common.Address], ol: int, ll: int, p: int) bool = forall a: int :: { n[a] } on + p < a && a <= on + ll ==> n[a] == l[a - on + ol - 1]
+//@ spec func c08SDelAfter(n: seq[common.Address], on: int, l: seq[common.Address], ol: int, ll: int, p: int) bool = forall a: int :: { n[a] } on + p <= a && a < on + ll - 1 ==> n[a] == l[a - on + ol + 1]
+//@ spec func c08SMember(s: seq[common.Address], o: int, n: int, x: common.Address) bool = exists c08m: int :: o <= c08m && c08m < o + n && s[c08m] == x
+// … on lists: N the new list, L the old one, p = search position of x in L
+//@ spec func c08LInsBefore(N: common.SortedAddresses, L: common.SortedAddresses, x: common.Address) bool = c08SInsBefore(elems(N), off(N), elems(L), off(L), c08APosIn(L, x))
+//@ spec func c08LInsAfter(N: common.SortedAddresses, L: common.SortedAddresses, x: common.Address) bool = c08SInsAfter(elems(N), off(N), elems(L), off(L), len(L), c08APosIn(L, x))
+//@ spec func c08LDelBefore(N: common.SortedAddresses, L: common.SortedAddresses, x: common.Address) bool = c08SInsBefore(elems(N), off(N), elems(L), off(L), c08APosIn(L, x))
+//@ spec func c08LDelAfter(N: common.SortedAddresses, L: common.SortedAddresses, x: common.Address) bool = c08SDelAfter(elems(N), off(N), elems(L), off(L), len(L), c08APosIn(L, x))
+//@ spec func c08LNotListed(N: common.SortedAddresses, x: common.Address) bool = forall a: int :: { elems(N)[a] } off(N) <= a && a < off(N) + len(N) ==> elems(N)[a] != x
+// x sits in cell p of N, p a valid index: the explicit witness of c08AMember(N, x)
+//@ spec func c08LAt(N: common.SortedAddresses, p: int, x: common.Address) bool = 0 <= p && p < len(N) && elems(N)[off(N) + p] == x
+
+// The SET view for the addresses other than x follows from the cell-by-cell relations by pure logic (no heap, no code): lemmas, proved once.
+// Insertion (UpdateDelegationTo#[insert-len] / [insert-at] / [insert-before] / [insert-after] are exactly the hypotheses, with n = elems(new list) …):
+// every old cell is found in the new list (explicit target cell first, then as a set), and every new cell but cell p comes from the old list.
+//@ lemma [C08.insert-keeps-old] forall n: seq[common.Address], on: int, l: seq[common.Address], ol: int, ll: int, p: int ::
+//@     0 <= p && p <= ll && c08SInsBefore(n, on, l, ol, p) && c08SInsAfter(n, on, l, ol, ll, p) ==>
+//@     (forall b: int :: ol <= b && b < ol + ll ==> n[if b < ol + p then b - ol + on else b - ol + on + 1] == l[b])
+//@ lemma [C08.insert-removes-nothing] forall n: seq[common.Address], on: int, l: seq[common.Address], ol: int, ll: int, p: int ::
+//@     0 <= p && p <= ll && (forall b: int :: { l[b] } ol <= b && b < ol + ll ==> n[if b < ol + p then b - ol + on else b - ol + on + 1] == l[b]) ==>
+//@     (forall b: int :: { l[b] } ol <= b && b < ol + ll ==> c08SMember(n, on, ll + 1, l[b]))
+//@ lemma [C08.insert-adds-only-x] forall n: seq[common.Address], on: int, l: seq[common.Address], ol: int, ll: int, p: int ::
+//@     0 <= p && p <= ll && c08SInsBefore(n, on, l, ol, p) && c08SInsAfter(n, on, l, ol, ll, p) ==>
+//@     (forall a: int :: { n[a] } on <= a && a < on + ll + 1 && a != on + p ==> c08SMember(l, ol, ll, n[a]))
+// Deletion ([delete-len] / [delete-before] / [delete-after]): every old cell but cell p is found in the new list, every new cell comes from the old list.
+//@ lemma [C08.delete-keeps-others] forall n: seq[common.Address], on: int, l: seq[common.Address], ol: int, ll: int, p: int ::
+//@     0 <= p && p < ll && c08SInsBefore(n, on, l, ol, p) && c08SDelAfter(n, on, l, ol, ll, p) ==>
+//@     (forall b: int :: ol <= b && b < ol + ll && b != ol + p ==> n[if b < ol + p then b - ol + on else b - ol + on - 1] == l[b])
+//@ lemma [C08.delete-removes-only-x] forall n: seq[common.Address], on: int, l: seq[common.Address], ol: int, ll: int, p: int ::
+//@     0 <= p && p < ll && (forall b: int :: { l[b] } ol <= b && b < ol + ll && b != ol + p ==> n[if b < ol + p then b - ol + on else b - ol + on - 1] == l[b]) ==>
+//@     (forall b: int :: { l[b] } ol <= b && b < ol + ll && b != ol + p ==> c08SMember(n, on, ll - 1, l[b]))
+//@ lemma [C08.delete-adds-nothing] forall n: seq[common.Address], on: int, l: seq[common.Address], ol: int, ll: int, p: int ::
+//@     0 <= p && p < ll && c08SInsBefore(n, on, l, ol, p) && c08SDelAfter(n, on, l, ol, ll, p) ==>
+//@     (forall a: int :: { n[a] } on <= a && a < on + ll - 1 ==> c08SMember(l, ol, ll, n[a]))
+
 // UpdateDelegationTo(validator, delete): the sorted-list edit on the delegator account. L = the account's list once loaded (the entry value
 // when it was loaded already), p = lower bound of validator in L; n0 = journal length before.
 //   validator in L & !delete, or not in L & delete -> no journal entry, the account's list is L itself (same slice), nothing else changes
@@ -797,8 +840,10 @@ package state
 // MEMORY: the new list lives in an array allocated by this call; L's array — the one the journal entry refers to — is never written:
 // [old-list-not-written] (as an assert before each updateDelegations call and as a postcondition), #frame[Elems:common.Address]
 // (no `elems(...)` in `modifies`), [new-list-in-own-array], and the precondition [new-list-in-own-array] of updateDelegations at both call sites.
+// The SET view for the other addresses (listed afterwards iff listed in L) is a consequence of the cell-by-cell clauses: lemmas [C08.insert-*] / [C08.delete-*] above.
 //@ func (*stateObject).UpdateDelegationTo props C08
 //@ panics none
+//@ opt per-return          // the refused removal (early return) apart from the three paths that reach the end (names get ~k)
 //@ requires so != nil && so.db != nil && c08JournalOK(so.db.journal)
 //@ requires !isnil(so.delegations) ==> c08ASorted(so.delegations)
 // an array of 20-byte elements holds fewer than 2^63 / 20 of them (the engine's slice well-formedness knows only off + cap <= 2^63 - 1):
@@ -810,7 +855,17 @@ package state
 //@ modifies so.dirtyDlgs, so.delegations, so.data.DelegationsHash, j.entries, elems(j.entries), mapof(j.dirties)
 //@ assert before call (*stateObject).updateDelegations: [old-list-not-written] elems(s0) == old(elems(s0))
 //@ assert before call (*stateObject).updateDelegations: [new-list-in-own-array] base(a1) != base(a0.delegations)
+// (quantifier-free stepping stones, one branch each; a0 = so, a0.delegations = L, a1 = the list handed over)
+// L's array has the content it had at function entry (also when L was loaded by this call: loading allocates, it writes no pre-existing cell and
+// the search ran on that content) — everything the search established about L is therefore still true of it
+//@ assert before call (*stateObject).updateDelegations: [list-array-unchanged] let P = a0.delegations in elems(P) == old(elems(P))
+//@ assert before call (*stateObject).updateDelegations: [handed-branch] len(j.entries) == n0 && (c08AHas(a0.delegations, validator) <==> delete) && (!isnil(s0) ==> a0.delegations == s0)
+//@ assert before call (*stateObject).updateDelegations: [handed-len] len(a1) == (if delete then len(a0.delegations) - 1 else len(a0.delegations) + 1) && c08APosIn(a0.delegations, validator) <= len(a0.delegations)
+//@ assert before call (*stateObject).updateDelegations: [handed-at] !delete ==> c08LAt(a1, c08APosIn(a0.delegations, validator), validator)
+// --- postconditions: quantifier-free ones first
 //@ ensures [one-entry-at-most] len(j.entries) == n0 || len(j.entries) == n0 + 1
+//@ ensures [list-array-unchanged] (len(j.entries) == n0 ==> let P = so.delegations in elems(P) == old(elems(P))) &&
+//@     (len(j.entries) == n0 + 1 ==> let P = c08JPrev(so) in elems(P) == old(elems(P)))
 //@ ensures [other-account-data-kept] c08DataKeptButDlgs(so)
 //@ ensures [loaded-list-kept] !isnil(s0) ==> (len(j.entries) == n0 ==> so.delegations == s0) && (len(j.entries) == n0 + 1 ==> c08JPrev(so) == s0)
 //@ ensures [old-list-not-written] elems(s0) == old(elems(s0))
@@ -820,49 +875,33 @@ package state
 //@     c08LastDlgs(j).account != nil && *c08LastDlgs(j).account == so.address && c08LastDlgs(j).prevhash == old(so.data.DelegationsHash) && so.dirtyDlgs
 //@ ensures [new-list-in-own-array] len(j.entries) == n0 + 1 ==> fresh(so.delegations) && base(so.delegations) != base(c08JPrev(so))
 //@ ensures [insert-len] len(j.entries) == n0 + 1 && !delete ==> len(so.delegations) == len(c08JPrev(so)) + 1
-//@ ensures [insert-at] len(j.entries) == n0 + 1 && !delete ==> elems(so.delegations)[off(so.delegations) + c08APosIn(c08JPrev(so), validator)] == validator
-//@ ensures [insert-before] len(j.entries) == n0 + 1 && !delete ==> forall a: int :: { elems(so.delegations)[a] }
-//@     off(so.delegations) <= a && a < off(so.delegations) + c08APosIn(c08JPrev(so), validator) ==>
-//@     elems(so.delegations)[a] == elems(c08JPrev(so))[a - off(so.delegations) + off(c08JPrev(so))]
-//@ ensures [insert-after] len(j.entries) == n0 + 1 && !delete ==> forall a: int :: { elems(so.delegations)[a] }
-//@     off(so.delegations) + c08APosIn(c08JPrev(so), validator) < a && a <= off(so.delegations) + len(c08JPrev(so)) ==>
-//@     elems(so.delegations)[a] == elems(c08JPrev(so))[a - off(so.delegations) + off(c08JPrev(so)) - 1]
 //@ ensures [delete-len] len(j.entries) == n0 + 1 && delete ==> len(so.delegations) == len(c08JPrev(so)) - 1
-//@ ensures [delete-before] len(j.entries) == n0 + 1 && delete ==> forall a: int :: { elems(so.delegations)[a] }
-//@     off(so.delegations) <= a && a < off(so.delegations) + c08APosIn(c08JPrev(so), validator) ==>
-//@     elems(so.delegations)[a] == elems(c08JPrev(so))[a - off(so.delegations) + off(c08JPrev(so))]
-//@ ensures [delete-after] len(j.entries) == n0 + 1 && delete ==> forall a: int :: { elems(so.delegations)[a] }
-//@     off(so.delegations) + c08APosIn(c08JPrev(so), validator) <= a && a < off(so.delegations) + len(c08JPrev(so)) - 1 ==>
-//@     elems(so.delegations)[a] == elems(c08JPrev(so))[a - off(so.delegations) + off(c08JPrev(so)) + 1]
-//@ ensures [sorted] c08ASorted(so.delegations) && !isnil(so.delegations)
-// the set view — "who delegates to whom", account side: afterwards the account lists `validator` iff !delete
-// (stepping stones first: the search position is the lower bound in the sorted list L, whose content the later allocations did not touch)
-//@ ensures [lower-bound-noop] len(j.entries) == n0 ==> c08AIsLB(so.delegations, validator, c08APosIn(so.delegations, validator))
-//@ ensures [lower-bound] len(j.entries) == n0 + 1 ==> c08ASorted(c08JPrev(so)) && c08AIsLB(c08JPrev(so), validator, c08APosIn(c08JPrev(so), validator))
-//@ ensures [not-listed] delete ==> forall a: int :: { elems(so.delegations)[a] } off(so.delegations) <= a && a < off(so.delegations) + len(so.delegations) ==> elems(so.delegations)[a] != validator
+//@ ensures [insert-at] len(j.entries) == n0 + 1 && !delete ==> c08LAt(so.delegations, c08APosIn(c08JPrev(so), validator), validator)
+// the set view, `validator` itself — "who delegates to whom", account side: afterwards the account lists `validator` iff !delete.
+// [listed]: explicit witnesses ([noop]: the search position in the unchanged list; [insert-at]: the insertion cell)
+//@ ensures [listed-at] !delete ==> c08LAt(so.delegations, if len(j.entries) == n0 then c08APosIn(so.delegations, validator) else c08APosIn(c08JPrev(so), validator), validator)
+//@ ensures [listed-kept] !delete && len(j.entries) == n0 ==> c08AMember(so.delegations, validator)
+//@ ensures [listed-inserted] !delete && len(j.entries) == n0 + 1 ==> c08AMember(so.delegations, validator)
 //@ ensures [listed] !delete ==> c08AMember(so.delegations, validator)
+// --- the edit cell by cell
+//@ ensures [insert-before] len(j.entries) == n0 + 1 && !delete ==> c08LInsBefore(so.delegations, c08JPrev(so), validator)
+//@ ensures [insert-after] len(j.entries) == n0 + 1 && !delete ==> c08LInsAfter(so.delegations, c08JPrev(so), validator)
+//@ ensures [delete-before] len(j.entries) == n0 + 1 && delete ==> c08LDelBefore(so.delegations, c08JPrev(so), validator)
+//@ ensures [delete-after] len(j.entries) == n0 + 1 && delete ==> c08LDelAfter(so.delegations, c08JPrev(so), validator)
+// --- order: the search position is the lower bound in the sorted list L; the result is sorted; a removed / refused validator is not listed.
+// (the order facts are triggered by `c08AddrNum(cell)` terms, see c08ASorted: [at-lower-bound] puts the number of cell p on the table)
+//@ ensures [old-list-sorted] len(j.entries) == n0 + 1 ==> c08ASorted(c08JPrev(so))
+//@ ensures [lower-bound-noop] len(j.entries) == n0 ==> c08AIsLB(so.delegations, validator, c08APosIn(so.delegations, validator))
+//@ ensures [lower-bound] len(j.entries) == n0 + 1 ==> c08AIsLB(c08JPrev(so), validator, c08APosIn(c08JPrev(so), validator))
+//@ ensures [at-lower-bound] (len(j.entries) == n0 && c08APosIn(so.delegations, validator) < len(so.delegations) ==>
+//@         c08AddrNum(elems(so.delegations)[off(so.delegations) + c08APosIn(so.delegations, validator)]) >= c08AddrNum(validator)) &&
+//@     (len(j.entries) == n0 + 1 && c08APosIn(c08JPrev(so), validator) < len(c08JPrev(so)) ==>
+//@         c08AddrNum(elems(c08JPrev(so))[off(c08JPrev(so)) + c08APosIn(c08JPrev(so), validator)]) >= c08AddrNum(validator))
+//@ ensures [sorted] c08ASorted(so.delegations) && !isnil(so.delegations)
+//@ ensures [not-listed-number] delete ==> forall a: int :: { c08AddrNum(elems(so.delegations)[a]) } off(so.delegations) <= a && a < off(so.delegations) + len(so.delegations) ==>
+//@     c08AddrNum(elems(so.delegations)[a]) != c08AddrNum(validator)
+//@ ensures [not-listed] delete ==> c08LNotListed(so.delegations, validator)
 //@ ensures [membership] c08AMember(so.delegations, validator) <==> !delete
-// … and every OTHER address is listed afterwards iff it was listed in L (the same facts as the cell-by-cell clauses, keyed on L's cells, then as sets)
-//@ ensures [insert-keeps-old] len(j.entries) == n0 + 1 && !delete ==> forall b: int :: { elems(c08JPrev(so))[b] } off(c08JPrev(so)) <= b && b < off(c08JPrev(so)) + len(c08JPrev(so)) ==>
-//@     elems(so.delegations)[if b < off(c08JPrev(so)) + c08APosIn(c08JPrev(so), validator) then b - off(c08JPrev(so)) + off(so.delegations) else b - off(c08JPrev(so)) + off(so.delegations) + 1] == elems(c08JPrev(so))[b]
-//@ ensures [delete-keeps-others] len(j.entries) == n0 + 1 && delete ==> forall b: int :: { elems(c08JPrev(so))[b] } off(c08JPrev(so)) <= b && b < off(c08JPrev(so)) + len(c08JPrev(so)) && b != off(c08JPrev(so)) + c08APosIn(c08JPrev(so), validator) ==>
-//@     elems(so.delegations)[if b < off(c08JPrev(so)) + c08APosIn(c08JPrev(so), validator) then b - off(c08JPrev(so)) + off(so.delegations) else b - off(c08JPrev(so)) + off(so.delegations) - 1] == elems(c08JPrev(so))[b]
-//@ ensures [insert-from-old] len(j.entries) == n0 + 1 && !delete ==> forall a: int :: { elems(so.delegations)[a] }
-//@     off(so.delegations) <= a && a < off(so.delegations) + len(so.delegations) && a != off(so.delegations) + c08APosIn(c08JPrev(so), validator) ==>
-//@     elems(so.delegations)[a] == elems(c08JPrev(so))[if a < off(so.delegations) + c08APosIn(c08JPrev(so), validator) then a - off(so.delegations) + off(c08JPrev(so)) else a - off(so.delegations) + off(c08JPrev(so)) - 1]
-//@ ensures [delete-from-old] len(j.entries) == n0 + 1 && delete ==> forall a: int :: { elems(so.delegations)[a] }
-//@     off(so.delegations) <= a && a < off(so.delegations) + len(so.delegations) ==>
-//@     elems(so.delegations)[a] == elems(c08JPrev(so))[if a < off(so.delegations) + c08APosIn(c08JPrev(so), validator) then a - off(so.delegations) + off(c08JPrev(so)) else a - off(so.delegations) + off(c08JPrev(so)) + 1]
-//@ ensures [insert-adds-only-validator] len(j.entries) == n0 + 1 && !delete ==> forall a: int :: { elems(so.delegations)[a] }
-//@     off(so.delegations) <= a && a < off(so.delegations) + len(so.delegations) && a != off(so.delegations) + c08APosIn(c08JPrev(so), validator) ==> c08AMember(c08JPrev(so), elems(so.delegations)[a])
-//@ ensures [delete-adds-nothing] len(j.entries) == n0 + 1 && delete ==> forall a: int :: { elems(so.delegations)[a] }
-//@     off(so.delegations) <= a && a < off(so.delegations) + len(so.delegations) ==> c08AMember(c08JPrev(so), elems(so.delegations)[a])
-//@ ensures [insert-removes-nothing-before] len(j.entries) == n0 + 1 && !delete ==> forall b: int :: { elems(c08JPrev(so))[b] }
-//@     off(c08JPrev(so)) <= b && b < off(c08JPrev(so)) + c08APosIn(c08JPrev(so), validator) ==> c08AMember(so.delegations, elems(c08JPrev(so))[b])
-//@ ensures [insert-removes-nothing-after] len(j.entries) == n0 + 1 && !delete ==> forall b: int :: { elems(c08JPrev(so))[b] }
-//@     off(c08JPrev(so)) + c08APosIn(c08JPrev(so), validator) <= b && b < off(c08JPrev(so)) + len(c08JPrev(so)) ==> c08AMember(so.delegations, elems(c08JPrev(so))[b])
-//@ ensures [delete-removes-only-validator] len(j.entries) == n0 + 1 && delete ==> forall b: int :: { elems(c08JPrev(so))[b] }
-//@     off(c08JPrev(so)) <= b && b < off(c08JPrev(so)) + len(c08JPrev(so)) && b != off(c08JPrev(so)) + c08APosIn(c08JPrev(so), validator) ==> c08AMember(so.delegations, elems(c08JPrev(so))[b])
 //@ ensures [journal-ok] c08JournalOK(j) && (base(j.entries) == old(base(j.entries)) || fresh(j.entries))
 
 // --- the account's total of delegated tokens (DelegationBalance) ----------------------------------------------------------------
@@ -913,6 +952,7 @@ package state
 // a cached account object is the same object afterwards. When the account does not exist nothing is journalled.
 //@ func (*StateDB).UpdateDelegator props C08
 //@ panics none
+//@ opt per-return          // each return in its own (unmerged) state: the callee postconditions are then literally the clauses to prove
 //@ requires st != nil && st.stateObjects != nil && c08JournalOK(st.journal) && delta != nil
 //@ requires [account-ok] in(addr, st.stateObjects) && st.stateObjects[addr] != nil ==> c08AcctOK(st, st.stateObjects[addr], addr)
 //@ let obj = st.stateObjects[addr]
@@ -923,7 +963,9 @@ package state
 //@     j.entries, elems(j.entries), mapof(j.dirties)
 //@ ensures [same-object] old(c08Live(st, addr)) ==> c08Acct(st, addr) == obj
 //@ ensures [absent-noop] !c08Live(st, addr) ==> len(j.entries) == n0
-//@ ensures [membership] c08Live(st, addr) ==> (c08AMember(c08Acct(st, addr).delegations, toValidator) <==> !delete)
+// "lists toValidator iff !delete", one polarity per clause (an existential under <==> is needlessly hard for the solvers)
+//@ ensures [listed] c08Live(st, addr) && !delete ==> c08AMember(c08Acct(st, addr).delegations, toValidator)
+//@ ensures [not-listed] c08Live(st, addr) && delete ==> c08LNotListed(c08Acct(st, addr).delegations, toValidator)
 //@ ensures [sorted] c08Live(st, addr) ==> c08AcctOK(st, c08Acct(st, addr), addr) && !isnil(c08Acct(st, addr).delegations)
 //@ ensures [balance] old(c08Live(st, addr)) ==> big(obj.data.DelegationBalance) == old(big(obj.data.DelegationBalance)) + old(big(delta))
 //@ ensures [old-list-not-written] old(c08Live(st, addr)) ==> elems(s0) == old(elems(s0))
